@@ -165,6 +165,18 @@ def cases(tier, inst):
                         for pattern in ("xalt", "x"):
                             if n >= 2 and (caching or tier == "thorough"):
                                 yield ("kjoin", node, kinds, base_binds, pattern, caching)
+    # ... and branches whose condition is a DISJUNCTION over both variables (what a disjunction hands out twice it hands
+    # out once: whether a refinement fires is still decided per assignment), with conclusions naming both / fewer variables
+    for n in range(2, (3 if tier == "quick" else 4) + 1):
+        for sh in binary_shapes(n):
+            node = label(sh, [0])
+            for kinds in itertools.product(("x", "xy", "o"), repeat=n):
+                if "o" not in kinds[1:] or (n == 4 and hash((sh, kinds)) % 3):
+                    continue
+                for base_binds in ((True, False) if kinds[0] == "xy" else (True,)):
+                    for pattern in ("xy", "xalt", "x", "xysame", "xtwin", "xytwin", "xreftwin"):
+                        for caching in (True, False):
+                            yield ("kjoin", node, kinds, base_binds, pattern, caching)
     # branches whose condition joins a further variable z (several z per x, taking different nested branches)
     for n in range(2, (4 if tier == "quick" else 5) + 1):
         for sh in binary_shapes(n):
@@ -176,6 +188,8 @@ def cases(tier, inst):
 
 # ---------------------------------------------------------------- two variables, conditions over a subset of them
 def kcond(kind, j, x, y, inst):
+    if kind == "o":         # a disjunction over both variables
+        return or_(x.t[j] == inst.v(1), y.t[j] == inst.v(1))
     if kind == "x":
         return x.t[j] == inst.v(1)
     if kind == "y":
@@ -185,6 +199,8 @@ def kcond(kind, j, x, y, inst):
 
 def kval(kind, j, xv, yv):
     """1 = the node's condition holds for the pair"""
+    if kind == "o":
+        return 1 if (xv[j] == 1 or yv[j] == 1) else 2
     if kind == "x":
         return 1 if xv[j] == 1 else 2
     if kind == "y":
@@ -195,7 +211,7 @@ def kval(kind, j, xv, yv):
 def concludes_both(pattern, i, is_alternative):
     """which variables the conclusion of node i names: "xy" all of them; "xalt" only alternatives name y too (the base and
     the refinements conclude on x alone); "x" none of them names y"""
-    return pattern in ("xy", "xysame") or (pattern == "xalt" and is_alternative)
+    return pattern in ("xy", "xysame", "xytwin") or (pattern == "xalt" and is_alternative) or (pattern == "xreftwin" and i == 0)
 
 
 def build_ktree(node, kinds, x, y, views, inst, pattern="xy", is_alternative=False):
@@ -233,14 +249,19 @@ def kjoin_make_and_eval_twice(case, inst):
         ys = [W.Item(p=inst.v(1), t=tuple(inst.v(v) for v in val), tag="y" + "".join(map(str, val))) for val in vals]
         if pattern == "xysame":
             ys = xs
+        yvals = vals
+        if pattern in ("xtwin", "xytwin", "xreftwin"):
+            # every valuation twice among the y: two assignments (x, y), (x, y') that agree on everything a condition reads
+            ys = ys + [W.Item(p=inst.v(1), t=tuple(inst.v(v) for v in val), tag="w" + "".join(map(str, val))) for val in vals]
+            yvals = vals + vals
         exp = []
         for xo, xv in zip(xs, vals):
-            for yo, yv in zip(ys, vals):
+            for yo, yv in zip(ys, yvals):
                 val = tuple(kval(kinds[j], j, xv, yv) for j in range(n))
                 for tag in rdr(node, val):
                     both = concludes_both(pattern, tag, is_alt[tag])
                     exp.append(repr(("made", "Made", Q.norm(xo), Q.norm(inst.v(tag + 1)), Q.norm(yo if both else None))))
-        if pattern not in ("xy", "xysame"):
+        if pattern not in ("xy", "xysame", "xytwin"):
             exp = sorted(set(exp))     # a conclusion that names x alone: how often it is drawn per x is not prescribed
         exp.sort()
         try:
@@ -267,7 +288,7 @@ def kjoin_make_and_eval_twice(case, inst):
         for _ in range(2):
             try:
                 rows = sorted(repr(Q.norm(r)) for r in q.evaluate())
-                out.append(sorted(set(rows)) if pattern not in ("xy", "xysame") else rows)
+                out.append(sorted(set(rows)) if pattern not in ("xy", "xysame", "xytwin") else rows)
             except Exception as e:
                 out.append(exc_obs(e))
         return out, exp
@@ -603,9 +624,12 @@ def describe(case, inst):
                 "# nested `with refinement(<cond>)` / `with alternative(<cond>)` blocks as in the tree, conclusions "
                 "Add(views, Made(a=x, b=i+1, c=y))" + {"xy": "", "xalt": "; base and refinements conclude Made(a=x, b=i+1) only",
                                                       "x": "; every conclusion is Made(a=x, b=i+1) only",
-                                                      "xysame": "; ys IS xs (both variables over one collection)"}[pattern] + "\n"
+                                                      "xysame": "; ys IS xs (both variables over one collection)",
+                                                      "xtwin": "; every conclusion is Made(a=x, b=i+1) only; ys holds every valuation TWICE",
+                                                      "xytwin": "; ys holds every valuation TWICE",
+                                                      "xreftwin": "; only the base names y, the branches conclude Made(a=x, b=i+1); ys holds every valuation TWICE"}[pattern] + "\n"
                 "rows1 = list(q.evaluate()); rows2 = list(q.evaluate())   # expected: ripple-down semantics per pair (x, y)"
-                + (" (compared as sets)" if pattern not in ("xy", "xysame") else ""))
+                + (" (compared as sets)" if pattern not in ("xy", "xysame", "xytwin") else ""))
     if case[0] == "zjoin":
         _, node, kinds, caching = case
         return (f"{'enable' if caching else 'disable'}_caching()\n# rule tree {node} (node = (index, refinement, alternative)); "
